@@ -66,6 +66,12 @@ func (s *c07Sink) Write(p []byte) (int, error) {
 	return s.buf.Write(p)
 }
 
+func (s *c07Sink) peek() []byte {
+	s.mu.Lock()
+	defer s.mu.Unlock()
+	return append([]byte(nil), s.buf.Bytes()...)
+}
+
 func (s *c07Sink) take() []byte {
 	s.mu.Lock()
 	defer s.mu.Unlock()
